@@ -332,7 +332,7 @@ def obligations(encs, consts):
 
     def r_delay(m):
         return (RUST_HEAD + "fn main() {\n    let (cur, step, max) = (Duration::new(%d, %d), Duration::new(%d, %d), Duration::new(%d, %d));\n"
-                "    assert!(cur <= max, \"model outside the invariant current <= max: not a counterexample\");\n"
+                "    if !(cur <= max) { println!(\"model outside the invariant current <= max: not a counterexample\"); return; }\n"
                 "    let (r, c, s2, m2) = v::delay_next(cur, step, max); // an overflow panic here also reproduces\n"
                 "    assert!(r >= cur && r <= max && c == r && s2 == step && m2 == max, \"Delay::next: {:?} -> {:?}\", cur, r);\n}\n"
                 % (m["cur_s"], m["cur_n"], m["step_s"], m["step_n"], m["max_s"], m["max_n"]))
